@@ -39,13 +39,24 @@ def render(rec):
 
 def py_first_match(arms, v):
     """independent rendering of the arms (Python semantics of the generated code)"""
-    x = pyval(v)
     for i, a in enumerate(arms, 1):
+        if py_matches(a, v):
+            return i
+    return 0
+
+
+def py_matches(a, v):
+    x = pyval(v)
+    for i in (1,):
         if a["k"] == "wild":
             return i
         if a["k"] == "cls":
             c = a["v"]["c"]
-            ok = {"Int": isinstance(x, int), "Nat": isinstance(x, int) and x >= 0, "Str": isinstance(x, str), "Bool": isinstance(x, bool)}[c]
+            if c in IV:
+                lo, hi = IV[c]
+                ok = isinstance(x, int) and lo <= x <= hi
+            else:
+                ok = {"Int": isinstance(x, int), "Nat": isinstance(x, int) and x >= 0, "Str": isinstance(x, str), "Bool": isinstance(x, bool)}[c]
             if ok:
                 return i
         elif a["k"] == "lit":
@@ -57,8 +68,11 @@ def py_first_match(arms, v):
     return 0
 
 
+IV = {"1..2": (1, 2), "0<..<4": (1, 3), "0..<3": (0, 2), "1<..3": (2, 3)}      # inclusive integer bounds of each interval pattern
+
+
 def arm_shape(rec):
-    return [a["k"] if a["k"] != "cls" else a["v"]["c"] for a in rec["arms"]]
+    return [a["k"] if a["k"] != "cls" else ("interval" if a["v"]["c"] in IV else a["v"]["c"]) for a in rec["arms"]]
 
 
 def run(ctx):
@@ -77,7 +91,7 @@ def run(ctx):
         rnd = random.Random(ctx.seed)
         cov = [x for x in recs if x["accepted"]]
         rest = [x for x in recs if not x["accepted"]]
-        recs = rnd.sample(cov, min(len(cov), 700)) + rnd.sample(rest, min(len(rest), 500))
+        recs = rnd.sample(cov, min(len(cov), 1000)) + rnd.sample(rest, min(len(rest), 600))
     rendered = [render(x) for x in recs]
     d = scratch("c33")
     res = compile_and_run(vh, [s for s, _ in rendered], d, opt=1, jobs=14)
@@ -114,6 +128,16 @@ def run(ctx):
                           f"match over {rec['T']} with arms {arm_shape(rec)} accepted and covered but the run fails: {run_.get('exc')}: {run_.get('exc_msg')}")
             continue
         want = [str(c["arm"]) for c in calls]
+        # the arm that ran must be one whose pattern matches the value: otherwise the value had no arm and fell
+        # into another one (the last arm is entered unconditionally)
+        wrong = [(c, o_) for c, o_ in zip(calls, out) if o_.isdigit() and 1 <= int(o_) <= len(rec["arms"]) and not py_matches(rec["arms"][int(o_) - 1], c["v"])]
+        if wrong or len(out) != len(calls):
+            c, o_ = wrong[0] if wrong else (calls[min(len(out), len(calls) - 1)], "?")
+            ctx.violation({"kind": "value-runs-arm-that-does-not-match", "scrutinee": rec["T"], "arms": arm_shape(rec),
+                           "value": c["v"]["t"], "ran": arm_shape(rec)[int(o_) - 1] if o_.isdigit() else "?"},
+                          {"src": src, "value": lit(c["v"]), "expected_arm": c["arm"], "observed_arm": o_, "out": out},
+                          f"match over {rec['T']} with arms {arm_shape(rec)}: value {lit(c['v'])} has arm {c['arm']} but arm {o_} ran, whose pattern does not match it")
+            continue
         if out != want:
             arm_dis += 1
             if len(samples_dis) < 5:
